@@ -52,6 +52,10 @@ type Case struct {
 	// written file (what a client holds), not to the object the signer built: anything the parser
 	// keeps beside the public fields must not stand in for them at verification.
 	Parsed bool `json:"parsed,omitempty"`
+	// SigCopies > 1: the Signature header lists the valid signature that many times (labels
+	// label, label2, ...), so the verifier, which tries the members in turn, meets a valid one
+	// more than once: whatever it learns while handling one member must not help the next.
+	SigCopies int `json:"sig_copies,omitempty"`
 }
 
 func instant(s *sxgkit.Spec, sel string) (sec, nsec int64) {
@@ -178,10 +182,18 @@ func check(c Case, r *vh.R) {
 		r.Failf("sign-error", "library refused to sign a well-formed exchange: %v", err)
 		return
 	}
+	if c.SigCopies > 1 && c.SigCopies <= 4 && c.Mut.Class != "sig-param" && c.Mut.Class != "fetcher" {
+		members := []string{e.SignatureHeaderValue}
+		for k := 2; k <= c.SigCopies; k++ {
+			members = append(members, strings.Replace(e.SignatureHeaderValue, "label;", fmt.Sprintf("label%d;", k), 1))
+		}
+		e.SignatureHeaderValue = strings.Join(members, ", ")
+		r.Class("several-valid-signatures")
+	}
 	orig := sxgkit.CanonOf(e)
 	payload := s.Payload()
 	signedValidity := ""
-	if pl, err := structuredheader.ParseParameterisedList(e.SignatureHeaderValue); err == nil && len(pl) == 1 {
+	if pl, err := structuredheader.ParseParameterisedList(e.SignatureHeaderValue); err == nil && len(pl) >= 1 {
 		signedValidity, _ = pl[0].Params["validity-url"].(string)
 	}
 	signer := gen.Fixtures()[s.Fixture]
@@ -631,7 +643,7 @@ func TestPropTamper(t *testing.T) {
 		if s.Fixture == 5 && m.Class == "fetcher" && m.Fixture == 3 {
 			m.Fixture = 2
 		}
-		return Case{Spec: *s, Mut: m, Time: tm, Parsed: rapid.Bool().Draw(t, "parsed")}
+		return Case{Spec: *s, Mut: m, Time: tm, Parsed: rapid.Bool().Draw(t, "parsed"), SigCopies: rapid.SampledFrom([]int{0, 0, 0, 2, 3}).Draw(t, "sigcopies")}
 	})
 }
 
